@@ -82,7 +82,8 @@ CLAIMED["C09"] = dict(
     text="Lean 4 theorems on the same model: closed is permanent; after close a pop still drains head-first and then gets the stop "
          "marker; consumers already parked (or that had tested closed before close() ran) are enabled once closed and end with the "
          "stop marker; L1: no consumer is parked in any quiescent state of a closed queue, and L2 (C09_pending_pops_return): that state is "
-         "reached within an explicit rank of steps; non-forced add/push/extend on a closed queue raise without enqueueing.",
+         "reached within an explicit rank of steps; non-forced add/push/extend on a closed queue raise without enqueueing; a stop marker "
+         "inside an extend() batch closes the queue at its place in the batch.",
     design="§5 C09", technique="Lean 4 invariant + L1 quiescence theorem + trace acceptance + close monitors on real runs",
     note="Same trusted base as C07.")
 
@@ -122,9 +123,10 @@ CLAIMED["C11"] = dict(
          "registering) - proved by an invariant that keeps every target covered by the remaining work list; please_stop is "
          "permanent; an unstopped thread is still listed under its parent (repaired shutdown block); MainThread.stop() ends its join "
          "phase only when every child of main and, by C10, every registered descendant has stopped, and reports failures after "
-         "having joined all; LEAVES NOTHING BEHIND (C11_main_stop_leaves_nothing_registered): every thread that exists descends from "
-         "the main thread through the registration lists, so at the end of the join phase every thread has stopped and none is in "
-         "the registry ALL. The pinned tree violated the property (stop racing a shutdown block that had detached its children): fixed.",
+         "having joined all; LEAVES NOTHING BEHIND: threads are children of their creator or orphans (parent_thread=Null, registered "
+         "in ALL only); the step that removes the main thread from ALL snapshots the whole registry (C11_sweep_snapshot_is_the_registry) "
+         "and every thread of that snapshot, like every descendant of the main thread, has stopped and left ALL when the sweep's join is "
+         "over (C11_main_stop_leaves_nothing_registered); failures are raised only after the sweep. The pinned tree violated the property (stop racing a shutdown block that had detached its children): fixed.",
     design="§5 C11, §7", technique="Lean 4 inductive invariants (work-list coverage of stop(), frame lemmas for every move) + trace acceptance + C11 monitor under gated-stop schedules",
     note="Same trusted base as C10. 'Registered' is the ghost list of all threads ever registered under a parent; the flattened "
          "work list of stop() is exact because the recursion never exits early.")
